@@ -483,8 +483,10 @@ def jobs_for(pid, tier):
                 both("core", ["core"], consts={"Vers": [0]}) + both("ed", ["entry", "disjoint"], consts={"Vers": [0], "Vals": [0]}, bigconsts={"MaxKs": 3})
                 + both("bulkclone", ["bulk", "clone"], consts={"Vers": [0], "Vals": [0], "MaxExtra": 1})
                 + both("setcore", ["core"], mode="set", consts={"Vers": [0]}) + both("setbc", ["bulk"], mode="set", consts={"MaxExtra": 1, "Vers": [0]})],
-        "C05": core + both("entry", ["entry"]) + setcore + tmap + tset,
-        "C02": core + both("cursor", ["cursor"]) + setcore + tmap + tset,
+        "C05": core + both("ecub", ["entry", "cursor", "unchecked", "bulk"], consts={"Vers": [0]}, bigconsts={"MaxExtra": 1}) + setcore
+               + both("setbulk", ["bulk"], mode="set", consts={"MaxExtra": 1}, bigconsts={"Vers": [0]}) + tmap + tset,
+        "C02": core + both("cursor", ["cursor"]) + both("eubc", ["entry", "unchecked", "bulk", "clone"], consts={"Vers": [0]}, bigconsts={"MaxExtra": 1})
+               + setcore + both("setbc", ["bulk", "clone"], mode="set", consts={"MaxExtra": 1}, bigconsts={"Vers": [0]}) + tmap + tset,
         "C03": core + both("entry", ["entry"]) + both("bulk", ["bulk"], bigconsts={"MaxExtra": 1}) + setcore
                + both("setbulk", ["bulk"], mode="set", consts={"MaxExtra": 1}, bigconsts={"Vers": [0]}),
     }
@@ -519,6 +521,8 @@ def nostd_probe():
 
 GATES = {  # failure attributions that make a check for <pid> report a violation
     "C03": {"C03", "CRASH"},
+    # "within those preconditions both uphold every other guarantee (ownership, key uniqueness, bounds, stored-key identity)"
+    "C18": {"C18", "C02", "C05", "C12", "C03", "CRASH"},
 }
 
 
